@@ -256,12 +256,21 @@ def claims_of(a: dict[str, Any]) -> list[tuple[list[str], str | None]]:
         return []
     if k in ('plain', 'mech'):
         for dec, s1 in b64_readings(s2b(a['line'])):
+            if not s1:
+                # not base64: a malformed exchange conveys nothing ("any
+                # ... malformed exchange leaves the connection
+                # unauthenticated"); this was a latitude until a seeding
+                # agent pointed out that junk inside valid credentials
+                # authenticated
+                continue
             for claim, s2 in plain_readings(dec):
                 out.append((claim, None if s1 and s2 else 'lenient_base64'
                             if not s1 else 'lenient_plain_parts'))
     elif k == 'authlogin' and len(a['lines']) >= 2:
         for u, s1 in b64_readings(s2b(a['lines'][0])):
             for p, s2 in b64_readings(s2b(a['lines'][1])):
+                if not (s1 and s2):
+                    continue
                 out.append((['', b2s(u), b2s(p)],
                             None if s1 and s2 else 'lenient_base64'))
     out.sort(key=lambda cl: cl[1] is not None)
@@ -1582,6 +1591,51 @@ class Run:
                         'a second connection authenticated as bob now shows '
                         '%s' % (ident or 'not authenticated'))
 
+    async def inject_behind_starttls(self, cl: Any) -> None:
+        """STARTTLS and a command with VALID credentials in one plaintext
+        segment: what was sent before the handshake is not protected input
+        and must not authenticate the connection (the classic STARTTLS
+        command injection; the in-memory transport's handshake is a no-op,
+        so whatever stays in the server's read buffer is executed)."""
+        user = sorted(u for u, p in self.pw.items() if p)[0]
+        pw = self.pw[user]
+        assert pw is not None
+        c = cl.c
+        if self.sieve:
+            tok = base64.b64encode(b'\0' + s2b(user) + b'\0' + s2b(pw))
+            c.feed(b'STARTTLS\r\nAUTHENTICATE "PLAIN" "' + tok + b'"\r\n')
+        else:
+            c.feed(b'inj1 STARTTLS\r\ninj2 LOGIN ' + imap_str(
+                s2b(user), 'quoted') + b' ' + imap_str(s2b(pw), 'quoted')
+                + b'\r\n')
+        self.count('starttls_injections')
+        if self.sieve:
+            # OK, the capabilities after the handshake, and - if the
+            # injected command is executed - its reply
+            for _ in range(3):
+                x = X()
+                await cl._read(x, [], False)
+                if x.status == 'closed':
+                    self.count('starttls_injection_closed')
+                    raise Stop()
+                if x.status != 'answered':
+                    break
+        else:
+            for _ in range(6):
+                if not await wait_or_quiet(c):
+                    break
+            if c.dead:
+                self.count('starttls_injection_closed')
+                raise Stop()
+            cl.cur = len(c.responses)
+        px, ident = await self.probe(cl)
+        if px.status == 'answered' and ident is not None:
+            self.report('plaintext-command-executed-after-starttls',
+                        'STARTTLS and a login of %s sent in one plaintext '
+                        'segment: the connection is authenticated as %s'
+                        % (user, ident))
+            raise Stop()
+
     async def case(self) -> None:
         spec = self.spec
         await self.build()
@@ -1599,6 +1653,8 @@ class Run:
                         'before any attempt the probe shows %s' % ident)
             raise Stop()
         try:
+            if spec.get('inject'):
+                await self.inject_behind_starttls(cl)
             for a in attempts:
                 await self.attempt(cl, a)
         finally:
@@ -1648,6 +1704,16 @@ SCRIPTS: dict[str, dict[str, Any]] = {
     # sanity scripts (must hold)
     'authzid-non-admin': dict(_BASE, attempts=[
         _plain('alice', 'bob', 'pwB', 'authzid-nonadmin')]),
+    # junk octets inside the base64 of valid credentials
+    'dirty-base64': dict(_BASE, attempts=[
+        att('plain', 'dirty-b64-good', line='AGFsa!*$ WNlAHB3QQ==',
+            claim=None, sp='cont', mech='PLAIN')]),
+    'dirty-base64-sieve': dict(_BASE, listener='sieve', attempts=[
+        att('plain', 'dirty-b64-good', line='AGFsa!*$ WNlAHB3QQ==',
+            claim=None, sp='ir-q', mech='PLAIN')]),
+    'starttls-injection': dict(_BASE, tls=True, inject=True, attempts=[]),
+    'starttls-injection-sieve': dict(_BASE, tls=True, inject=True,
+                                     listener='sieve', attempts=[]),
     'logindisabled': dict(_BASE, tls=True, attempts=[
         _login('alice', 'pwA'), att('starttls', 'starttls'),
         _login('alice', 'pwA')]),
@@ -1714,6 +1780,14 @@ class C09(Check):
                    'n': rng.choice([1, 2, 2, 3, 3, 4, 5, 6]),
                    'sleep': rng.random() < 0.15,
                    'badlimit': rng.random() < 0.2}
+            if i % 25 == 7:
+                yield {'seed': seed * 1_000_003 + 500_000 + i,
+                       'listener': 'sieve' if rng.random() < 0.3 else 'imap',
+                       'backend': 'maildir' if rng.random() < 0.2 else 'dict',
+                       'tls': True, 'inject': True,
+                       'peer': rng.choice(['local', 'remote']),
+                       'n': 0, 'attempts': [], 'sleep': False,
+                       'badlimit': False}
 
     def setup_worker(self) -> None:
         lg = logging.getLogger('pymap')
